@@ -125,10 +125,10 @@ GeoSucc(nx, n, s, rev) == {<<Sigma(n, s, rev, i), IF nx[i] \in 1..n THEN Sigma(n
 (* ------------------------------ perimeter ------------------------------ *)
 D2(a, b) == (a[1] - b[1]) * (a[1] - b[1]) + (a[2] - b[2]) * (a[2] - b[2])
 
-\* longhand square root: root so far p, remainder c (c <= 2p), d more decimal digits
-\* largest digit x <= x0 with (20p + x) * x <= c2
+\* largest digit x' <= x with (20p + x') * x' <= c2
 RECURSIVE DigitDown(_, _, _)
 DigitDown(p, c2, x) == IF x = 0 \/ (20 * p + x) * x <= c2 THEN x ELSE DigitDown(p, c2, x - 1)
+\* longhand square root: root so far p, remainder c (c <= 2p), d more decimal digits
 RECURSIVE SqrtDig(_, _, _)
 SqrtDig(p, c, d) ==
   IF d = 0 THEN <<p, c>>
